@@ -30,8 +30,12 @@ func (w *faultWriter) Write(p []byte) (int, error) {
 
 // an encoder stream kind: constructor + pieces; returns the index of the first
 // operation (0 = constructor, i = i-th Write, len+1 = Close) that reported an error, or -1
+// lastCloseNil: whether the Close call of the latest runEncoder returned nil
+var lastCloseNil bool
+
 func runEncoder(kind string, w io.Writer, pieces [][]byte, rng []byte) (firstErr int, err error) {
 	firstErr = -1
+	lastCloseNil = false
 	withRand(rng, func() {
 		err = guard(func() error {
 			var wc io.WriteCloser
@@ -75,7 +79,9 @@ func runEncoder(kind string, w io.Writer, pieces [][]byte, rng []byte) (firstErr
 					firstErr = i + 1
 				}
 			}
-			if e := wc.Close(); e != nil && firstErr < 0 {
+			e = wc.Close()
+			lastCloseNil = e == nil
+			if e != nil && firstErr < 0 {
 				firstErr = len(pieces) + 1
 			}
 			return nil
@@ -158,7 +164,7 @@ func init() {
 		}
 		n := free.calls
 		h.tag(fmt.Sprintf("wfault-calls:%s", kind))
-		swallowed := 0
+		swallowed, closeNil := 0, 0
 		for k := 0; k < n; k++ {
 			for _, sticky := range []bool{false, true} {
 				w := &faultWriter{failAt: k, sticky: sticky}
@@ -172,6 +178,11 @@ func init() {
 					if len(fs) < 2 {
 						fs = append(fs, Failure{Kind: "oracle", Key: "write-fault-swallowed-" + kind, Desc: fmt.Sprintf("%s: underlying Write call %d of %d failed (sticky=%v) but the constructor, every Write and Close reported success", kind, k, n, sticky)})
 					}
+				} else if lastCloseNil && w.calls > k && !bytes.Equal(w.buf.Bytes(), free.buf.Bytes()) && closeNil < 2 {
+					// the caller went on after the error (as the fault-free run does) and Close reported success:
+					// then the writer must hold the complete message
+					closeNil++
+					fs = append(fs, Failure{Kind: "oracle", Key: "close-reports-success-for-incomplete-message-" + kind, Desc: fmt.Sprintf("%s: underlying Write call %d of %d failed once (sticky=%v), operation %d reported the error, the caller went on, and Close returned nil although the writer holds %d bytes that are not the complete message (%d bytes)", kind, k, n, sticky, fe, w.buf.Len(), free.buf.Len())})
 				}
 			}
 		}
